@@ -1,5 +1,8 @@
 import JSight.TypeGraphProofs
 import JSight.Dfs
+import JSight.LinksHoist
+import JSight.FuelVR
+import JSight.FuelEX
 /-!
 # C09 — User-type references are resolved completely and recursion is decided correctly
 
@@ -16,7 +19,54 @@ iff some member).
 * `C09_resolved_completely`: the type expansion used by the validator reaches exactly the alternatives
   reachable through chains of references (`VR.alts_iff_reach`).
 Missing-type errors, UsedUserTypes and termination are checked against the code (harness
-`c09-typegraph`).
+`c09-typegraph`) — and, below `C09_resolved_completely`, PROVED about models tied to the code by `c09-links`:
+
+**Links.** Model `LK.linkCheck` / `LK.linkCheckO` (`JSight/Links.lean`): the reference-resolving part of
+`Schema.compile()` as coded — `CompileAllOf` (allOf parents are looked up first; in-progress set 703, memo,
+copy-down of keys / children / additionalProperties with 704, 705, 402) and `CheckRootSchema` (root first, then the
+hoisted unnamed types of or-shortcuts in heap-address order = parameter `ord`, then EVERY added type in
+`sort.Strings` order, referenced or not; per node `collectAllowedJsonTypes` with its path set 1303 and the 1301 test,
+`buildList` of `checkLiteralNode`, key shortcuts 1302 / 1304, additionalProperties). Spec `LK.Refs` / `LK.Resolved`
+(`JSight/LinksSpec.lean`): an inductive "the text references `n`" over the eight reference forms, and "every name
+referenced by the root or by a type of the table is in the table".
+* `C09_links_names_missing`: a reported `Type "n" not found` names a type that IS referenced and IS NOT in the table.
+* `C09_links_ok_resolved`: if the check passes, every referenced type was added.
+* `C09_links_iff_partial`: with no other error of the pipeline in the way (decidable hypothesis `LK.OnlyMissing`), the
+  check passes iff every referenced type was added, and fails naming a missing type iff some was not
+  (`C09_links_fails_iff_partial`). `C09_links_iff_full` is the statement without the hypothesis; it is false of the
+  code for an innocuous reason — another error may come first — `C09_links_iff_full_false` (witness: an allOf
+  recursion 703 in front of a missing `@M`; replayed by `c09-links`).
+* Ownership (`A.AddType("@b", B)`: type objects added to other type objects). Model `LK.linkCheckO` on `LK.OG`
+  (every type object with its owner): `LK.flatten` = `loader.AddUnnamedTypes` as coded (rounds of copying the tables
+  of the types that are in the root table), then the same pipeline — since commit 8f3890e the hoisting runs BEFORE
+  `CompileAllOf`. `C09_links_own_eq_flat` (the check with ownership IS the flat check of the hoisted table, every
+  ownership structure), `C09_links_own_hoisted_iff` (the hoisted table holds exactly the objects that reach the root
+  through an `AddType` chain of any length; `|types|` rounds suffice), hence `C09_links_own_sound`,
+  `C09_links_own_complete`, `C09_links_own_iff_partial`. Regression witnesses about the order BEFORE the fix (model
+  `LK.pinnedLinkCheckO`, `JSight/LinksOwnPinned.lean`): `C09_links_own_pinned_unnoticed` (a missing allOf parent
+  inside a nested type passed Check) and `C09_links_own_pinned_parent_not_found` (an allOf parent added to another
+  type was reported as not found); `C09_links_own_fixed` shows both witnesses on the current order. All replayed on
+  the real library by the corpus of `c09-links`.
+* Not proved: that the named type is the FIRST unresolved one in traversal order (the tie compares the exact name).
+
+**UsedUserTypes.** Model `LK.used` = `userTypesCollector.collect` on the root schema as loaded. `C09_used_nodup`,
+`C09_used_mem_iff` (exactly the names the text references, `LK.RefsN`), `C09_used_order` (first-occurrence order of
+`LK.mentions`: pre-order; at an object allOf parents, then additionalProperties, then each property's key shortcut and
+value in source order — the code's order is deterministic, no map is ranged over; it is source order except that the
+rules of one annotation are visited allOf-first whatever order they are written in).
+
+**Termination.** Lean functions are total, so the content is in the recursion structure:
+* `TG.check` (recursion DFS) is structural recursion on the schema tree — as coded, a reference met inside a type
+  body is not expanded at all (callee's own table), so there is nothing to bound; its acceptance by Lean is the proof.
+* `LK.linkCheck` has four descents through the type table, each with a fuel argument and the code's own set of
+  names (in-progress / path / added set): `C09_links_never_out_of_fuel`, `C09_links_fuel_stable`: `|types| + 1` units
+  suffice on EVERY graph and more fuel never changes the verdict.
+* the validator's type expansion `VR.build` (one `addedTypeNames` set): `C09_validate_fuel_stable`, every type table.
+* the example builder `EX.build` cuts every type at its third nested expansion (`proc n > 1`), as the code does:
+  `C09_example_fuel_stable`, `2·|types| + 1` units suffice on every type table.
+None of these needs the graph to be ACCEPTED by the recursion check: the code carries a visited set / counter in
+every descent, so termination holds for rejected graphs too (`c09-typegraph` runs Check / Validate / Example under a
+deadline on them; the one historical exception, the key-shortcut type resolution, was fix F-7g).
 -/
 namespace Props.C09
 
@@ -27,5 +77,142 @@ theorem C09_full_false : TG.check TG.cycle2 = true ∧ ¬ TG.Inhabited TG.cycle2
 
 theorem C09_resolved_completely {L : Type} (env : VR.Env L) (s a : VR.S L) :
     a ∈ VR.alts env s ↔ VR.ReachS env s a := VR.alts_iff_reach env s a
+
+/-! ### links -/
+
+theorem C09_links_names_missing (g : LK.G) (ord : List (List String)) (hord : LK.OrdOK g ord) (n : String)
+    (h : LK.linkCheck g ord = .error (.missing n)) : LK.Refs g n ∧ ¬ LK.InTable g n :=
+  LK.links_names_missing g ord hord n h
+
+theorem C09_links_ok_resolved (g : LK.G) (ord : List (List String)) (h : LK.linkCheck g ord = .ok ()) :
+    LK.Resolved g := LK.links_ok_resolved g ord h
+
+def C09_links_iff_full : Prop :=
+  ∀ (g : LK.G) (ord : List (List String)), LK.OrdOK g ord →
+    ((∃ n, LK.linkCheck g ord = .error (.missing n)) ↔ ¬ LK.Resolved g)
+
+theorem C09_links_iff_partial (g : LK.G) (ord : List (List String)) (hord : LK.OrdOK g ord)
+    (hno : LK.OnlyMissing g ord) : LK.linkCheck g ord = .ok () ↔ LK.Resolved g := LK.links_iff g ord hord hno
+
+theorem C09_links_fails_iff_partial (g : LK.G) (ord : List (List String)) (hord : LK.OrdOK g ord)
+    (hno : LK.OnlyMissing g ord) : (∃ n, LK.linkCheck g ord = .error (.missing n)) ↔ ¬ LK.Resolved g :=
+  LK.links_fails_iff g ord hord hno
+
+theorem C09_links_iff_full_false : ¬ C09_links_iff_full := LK.links_full_false
+
+/-- every reference form, resolved: `{ // {allOf: "@P", additionalProperties: "@I"} "a": @A, @S: 1 // {type: "@I"},
+"c": [@A | @B] }`, `@P = {"p": 1 // {or: ["@I", "integer"]}}`, `@A = {"x": @B}`, `@B = {}`, `@I = 1`, `@S = "s"` -/
+def demo : LK.G :=
+  { root := .obj ["@P"] (some "@I") [("a", false, .ref ["@A"]), ("@S", true, .lit .int (.typ "@I") none),
+      ("c", false, .arr [.ref ["@A", "@B"]])],
+    types := [("@P", .obj [] none [("p", false, .lit .int (.orr [.user "@I", .builtin .int]) none)]),
+      ("@A", .obj [] none [("x", false, .ref ["@B"])]), ("@B", .obj [] none []),
+      ("@I", .lit .int .none none), ("@S", .lit .str .none none)] }
+
+/-- the same without `@B`, which only `@A` (and an or-shortcut) reference -/
+def demoMissing : LK.G := { demo with types := demo.types.filter (fun p => p.1 != "@B") }
+
+example : LK.linkCheck demo (LK.orNodes demo) = .ok () := by decide
+example : LK.OnlyMissing demo (LK.orNodes demo) := by decide
+example : LK.linkCheck demoMissing (LK.orNodes demoMissing) = .error (.missing "@B") := by decide
+example : LK.OnlyMissing demoMissing (LK.orNodes demoMissing) := by decide
+example : LK.Refs demoMissing "@B" ∧ ¬ LK.InTable demoMissing "@B" :=
+  C09_links_names_missing demoMissing _ (LK.orNodes_ordOK _) "@B" (by decide)
+example : LK.Resolved demo := C09_links_ok_resolved demo (LK.orNodes demo) (by decide)
+
+/-! ### links with ownership (`A.AddType("@b", B)`) -/
+
+theorem C09_links_own_eq_flat (og : LK.OG) (ord : List (List String)) :
+    LK.linkCheckO og ord = LK.linkCheck (LK.flatten og) ord := LK.linkCheckO_eq_flat og ord
+
+theorem C09_links_own_hoisted_iff (og : LK.OG) (n : String) :
+    LK.InTable (LK.flatten og) n ↔ LK.Reach og.types n := LK.inTable_flatten_iff og n
+
+theorem C09_links_own_sound (og : LK.OG) (ord : List (List String)) (hord : LK.OrdOK (LK.flatten og) ord) (n : String)
+    (h : LK.linkCheckO og ord = .error (.missing n)) : LK.Refs (LK.flatten og) n ∧ ¬ LK.Reach og.types n :=
+  LK.linkCheckO_sound og ord hord n h
+
+theorem C09_links_own_complete (og : LK.OG) (ord : List (List String)) (h : LK.linkCheckO og ord = .ok ()) :
+    ∀ n, LK.Refs (LK.flatten og) n → LK.Reach og.types n := LK.linkCheckO_complete og ord h
+
+theorem C09_links_own_iff_partial (og : LK.OG) (ord : List (List String)) (hord : LK.OrdOK (LK.flatten og) ord)
+    (hno : LK.OnlyMissing (LK.flatten og) ord) :
+    LK.linkCheckO og ord = .ok () ↔ ∀ n, LK.Refs (LK.flatten og) n → LK.Reach og.types n :=
+  LK.linkCheckO_iff og ord hord hno
+
+/-- the order of `Schema.compile()` before commit 8f3890e: Check passed although `@m` was never added -/
+theorem C09_links_own_pinned_unnoticed :
+    LK.pinnedLinkCheckO LK.witnessNestedAllOf ["@a"] (LK.orNodes LK.witnessNestedAllOf) = .ok () ∧
+    ¬ LK.Resolved LK.witnessNestedAllOf := LK.nested_allOf_unnoticed
+
+/-- … and an allOf parent that was added to another type was reported as not found -/
+theorem C09_links_own_pinned_parent_not_found :
+    LK.pinnedLinkCheckO LK.witnessNestedParent ["@a"] (LK.orNodes LK.witnessNestedParent) = .error (.missing "@b") ∧
+    LK.InTable LK.witnessNestedParent "@b" := LK.nested_parent_not_found
+
+/-- the same two inputs on the current order -/
+theorem C09_links_own_fixed :
+    LK.linkCheckO LK.ownedNestedAllOf [] = .error (.missing "@m") ∧ LK.linkCheckO LK.ownedNestedParent [] = .ok () :=
+  ⟨LK.ownedNestedAllOf_now, LK.ownedNestedParent_now⟩
+
+/-- `demo` as the chain `root ← @P, @A`; `@B`, `@I` added to `@A`, `@S` to `@B`; `@Z` added to nothing and `@Y` to `@Z` -/
+def demoOwned : LK.OG :=
+  { root := demo.root,
+    types := [⟨"@P", .root, .obj [] none [("p", false, .lit .int (.orr [.user "@I", .builtin .int]) none)]⟩,
+      ⟨"@A", .root, .obj [] none [("x", false, .ref ["@B"])]⟩, ⟨"@B", .type "@A", .obj [] none []⟩,
+      ⟨"@I", .type "@A", .lit .int .none none⟩, ⟨"@S", .type "@B", .lit .str .none none⟩,
+      ⟨"@Z", .nobody, .obj [] none []⟩, ⟨"@Y", .type "@Z", .ref ["@nowhere"]⟩] }
+
+example : LK.hoisted demoOwned = ["@P", "@A", "@B", "@I", "@S"] := by decide
+example : LK.linkCheckO demoOwned [] = .ok () := by decide
+example : LK.OnlyMissing (LK.flatten demoOwned) [] := by decide
+example : LK.Reach demoOwned.types "@S" := (LK.mem_hoisted_iff demoOwned "@S").1 (by decide)
+example : ¬ LK.Reach demoOwned.types "@Y" := fun h =>
+  absurd ((LK.mem_hoisted_iff demoOwned "@Y").2 h) (by decide)
+
+/-! ### UsedUserTypes -/
+
+theorem C09_used_nodup (s : LK.N) : (LK.used s).Nodup := LK.used_nodup s
+
+theorem C09_used_mem_iff (s : LK.N) (n : String) : n ∈ LK.used s ↔ LK.RefsN s n := LK.used_mem_iff s n
+
+theorem C09_used_order (s : LK.N) : LK.used s = LK.dedupFirst (LK.mentions s) := LK.used_eq s
+
+example : LK.used demo.root = ["@P", "@I", "@A", "@S", "@B"] := by decide
+example : LK.mentions demo.root = ["@P", "@I", "@A", "@S", "@I", "@A", "@B"] := by decide
+
+/-! ### termination (fuel sufficiency) -/
+
+theorem C09_links_never_out_of_fuel (g : LK.G) (fuel : Nat) (h : g.types.length + 1 ≤ fuel) (ord : List (List String)) :
+    LK.linkCheckF g fuel ord ≠ .error .fuel := LK.linkCheckF_noFuel g fuel h ord
+
+theorem C09_links_fuel_stable (g : LK.G) (fuel : Nat) (h : g.types.length + 1 ≤ fuel) (ord : List (List String)) :
+    LK.linkCheckF g fuel ord = LK.linkCheck g ord := LK.linkCheckF_stable g fuel h ord
+
+theorem C09_validate_fuel_stable {L : Type} (env : VR.Env L) (s : VR.S L) (fuel : Nat) (h : env.length + 1 ≤ fuel) :
+    (VR.build env fuel s ([], [])).2 = VR.alts env s := VR.alts_fuel_stable env s fuel h
+
+theorem C09_example_fuel_stable (ts : EX.Types) (n : EX.N) (fuel : Nat) (h : 2 * ts.length + 1 ≤ fuel) :
+    EX.build ts fuel (fun _ => 0) n = EX.build ts (2 * ts.length + 1) (fun _ => 0) n :=
+  EX.build_fuel_stable ts n fuel h
+
+/-- `@t = {"k": @t}` (a required self-reference: the recursion check rejects it; the builder still stops) -/
+example : EX.build [("@t", .obj [([.quote, .lf, .quote], .ref "@t")])] 64 (fun _ => 0) (.ref "@t") =
+    EX.build [("@t", .obj [([.quote, .lf, .quote], .ref "@t")])] 3 (fun _ => 0) (.ref "@t") :=
+  C09_example_fuel_stable _ _ 64 (by decide)
+
+example : VR.alts (L := Nat) [("@t", .ref ["@t", "@u"] none), ("@u", .lit 0)] (.ref ["@t"] none) =
+    (VR.build [("@t", .ref ["@t", "@u"] none), ("@u", .lit 0)] 1000 (.ref ["@t"] none) ([], [])).2 :=
+  (C09_validate_fuel_stable _ _ 1000 (by decide)).symm
+
+/-- an alias cycle with a self-referential or-rule: rejected (1303), never out of fuel, with 3 units or with 1000 -/
+def demoCyclic : LK.G :=
+  { root := .lit .int (.typ "@A") none,
+    types := [("@A", .lit .int (.orr [.user "@B", .builtin .int]) none), ("@B", .lit .int (.typ "@A") none)] }
+
+example : LK.linkCheck demoCyclic [] = .error (.jsonTypeRecursion "@A") := by decide
+example : LK.linkCheckF demoCyclic 1000 [] = .error (.jsonTypeRecursion "@A") := by
+  rw [C09_links_fuel_stable demoCyclic 1000 (by decide) []]; decide
+example : LK.linkCheckF demoCyclic 1 [] = .error .fuel := by decide
 
 end Props.C09
